@@ -21,14 +21,14 @@ ALPHABET = {
     "fmg": [0, 1], "fmg_it": [0, 1, 2, 3], "fmg_cycle": [0, 1, 2], "extr": [0, 1, 2, 3], "maxlev": [-1, 1, 2, 3, 10], "pre": [0, 1, 2],
     "post": [0, 1, 2], "cycle": [0, 1, 2], "maxit": [0, 1, 2, 150], "norm": [0, 1, 2], "abstol": [-1.0, 0.0, 1e-8, 1e-3],
     "reltol": [-1.0, 0.0, 1e-8, 1e-3], "threads": [1, 2, 4, 16], "tfactor": [1.0, 0.5, 0.1], "strat": [0, 1], "cc": [0, 1], "cg": [0, 1],
-    "exact": [0, 1], "verbose": [0, 1, 2], "paraview": [0, 1], "ajump": [0.0, 0.858], "problem": ["g0p0a1b0", "g1p2a2b1", "g2p1a3b0", "g3p2a3b1", "g2p3a3b1", "g0p2a0b0"],
+    "exact": [0, 1], "verbose": [0, 1, 2], "paraview": [0, 1], "gridfile": [0, 1, 2, 3, 4, 5], "ajump": [0.0, 0.858], "problem": ["g0p0a1b0", "g1p2a2b1", "g2p1a3b0", "g3p2a3b1", "g2p3a3b1", "g0p2a0b0"],
 }
 PAIRS = [dict(abstol=-1.0, reltol=-1.0), dict(abstol=-1.0, reltol=-1.0, maxit=3), dict(strat=0, cc=0, cg=0), dict(strat=0, cc=0), dict(strat=0, cg=0),
          dict(pre=0, post=0), dict(maxit=0, exact=1), dict(maxit=0, fmg=1), dict(aniso=2, ajump=0.0), dict(aniso=1, ajump=0.858),
          dict(maxlev=2, fmg=1, extr=1), dict(nr_exp=3, ntheta_exp=3), dict(nr_exp=3, ntheta_exp=3, extr=1, fmg=1), dict(nr_exp=2, ntheta_exp=3),
          dict(nr_exp=3, ntheta_exp=2), dict(abstol=-1.0, reltol=-1.0, maxit=0), dict(threads=16, tfactor=0.1), dict(maxit=1, exact=1),
          dict(abstol=-1.0, reltol=-1.0, extr=3, maxit=5), dict(verbose=1, extr=3), dict(verbose=2, maxit=0), dict(verbose=1, exact=0),
-         dict(verbose=2, fmg=1, extr=1), dict(verbose=1, abstol=-1.0, reltol=-1.0), dict(paraview=1, exact=0), dict(paraview=1, maxit=0), dict(paraview=1, maxlev=2, fmg=1)]
+         dict(verbose=2, fmg=1, extr=1), dict(verbose=1, abstol=-1.0, reltol=-1.0), dict(paraview=1, exact=0), dict(paraview=1, maxit=0), dict(paraview=1, maxlev=2, fmg=1), dict(gridfile=2, aniso=2), dict(gridfile=2, div2=1), dict(gridfile=1, paraview=1)]
 BASES = [
     dict(nr_exp=4, ntheta_exp=-1),
     dict(nr_exp=3, ntheta_exp=3, strat=1, extr=1, fmg=1, fmg_it=1, problem="g1p2a2b1"),
@@ -126,8 +126,13 @@ def judge_api(cfg, r, build):
     return out
 
 
+GRIDFILE_CLI = {1: ["--write_grid_file", "1", "--file_grid_radii", "cli_radii.txt", "--file_grid_angles", "cli_angles.txt"],
+                3: ["--load_grid_file", "1", "--file_grid_radii", "no_such_radii_file.txt", "--file_grid_angles", "no_such_angles_file.txt"],
+                4: ["--load_grid_file", "1"], 5: ["--write_grid_file", "1"]}
+
+
 def cli_args(cfg):
-    args = []
+    args = list(GRIDFILE_CLI.get(cfg.get("gridfile", 0), []))
     for k, v in cfg.items():
         if k in CLI_NAMES:
             args += ["--" + CLI_NAMES[k], repr(v) if isinstance(v, float) else str(v)]
